@@ -75,7 +75,7 @@ enum Uid {
 
 enum M {
     Bytes(Vec<u8>),
-    Ms(u32, Uid, Vec<u64>),
+    Ms(u32, Uid, Vec<u64>, Option<u32>), // the last: an explicit count word (`MC`), else the number of values
 }
 
 enum Item {
@@ -134,10 +134,10 @@ fn header(typ: u16, len: usize, sid: u32) -> Vec<u8> {
     b
 }
 
-fn ms_bytes(sid: u32, uid: u32, vals: &[u64]) -> Vec<u8> {
+fn ms_bytes(sid: u32, uid: u32, vals: &[u64], count: Option<u32>) -> Vec<u8> {
     let mut b = header(1, 16 + 8 * vals.len(), sid);
     b.extend(uid.to_le_bytes());
-    b.extend((vals.len() as u32).to_le_bytes());
+    b.extend(count.unwrap_or(vals.len() as u32).to_le_bytes());
     for v in vals {
         b.extend(v.to_le_bytes());
     }
@@ -170,7 +170,20 @@ fn parse_msg(s: &str) -> Option<M> {
             if 16 + 8 * vals.len() > 0xffff {
                 return None;
             }
-            Some(M::Ms(dec(sid)?, uid, vals))
+            Some(M::Ms(dec(sid)?, uid, vals, None))
+        }
+        // a well-framed measurement whose count word does not match the values it carries
+        ["MC", sid, uid, count, vals] => {
+            let uid = match uid.strip_prefix("u:") {
+                Some(n) if is_pname(n) => Uid::Prog(n.to_string()),
+                Some(_) => return None,
+                None => Uid::Lit(dec(uid)?),
+            };
+            let vals: Vec<u64> = if vals == "-" { vec![] } else { vals.split(';').map(dec).collect::<Option<_>>()? };
+            if 16 + 8 * vals.len() > 0xffff {
+                return None;
+            }
+            Some(M::Ms(dec(sid)?, uid, vals, Some(dec(count)?)))
         }
         ["RD", id] => {
             let mut m = header(5, 12, 0);
@@ -343,12 +356,12 @@ impl Ipc for Sock {
                     for m in ms {
                         match m {
                             M::Bytes(b) => d.extend(b),
-                            M::Ms(sid, uid, vals) => {
+                            M::Ms(sid, uid, vals, count) => {
                                 let uid = match uid {
                                     Uid::Lit(u) => u,
                                     Uid::Prog(p) => lk(&self.0.sh).p2uid.get(&p).copied().unwrap_or(0),
                                 };
-                                d.extend(ms_bytes(sid, uid, &vals));
+                                d.extend(ms_bytes(sid, uid, &vals, count));
                             }
                         }
                     }
